@@ -7,7 +7,7 @@
 From Coq Require Import List NArith Bool Lia.
 From Conductor Require Import Lib.Regex.
 Import ListNotations.
-Open Scope N_scope.
+Local Open Scope N_scope.
 
 Inductive end_anchor := Dollar | EndZ | NoEnd.
 Inductive match_method := MMatch | MFullmatch.
